@@ -213,7 +213,7 @@ pub fn run(tier: &str, seed: u64) -> Report {
     }
     // (3) random Unicode keys
     let mut rng = Rng::new(seed, "c18", 0);
-    for _ in 0..(if thorough { 200_000 } else { 20_000 }) {
+    for _ in 0..(if thorough { 2_000_000 } else { 20_000 }) {
         let key = match rng.below(3) {
             0 => rng.utf8_upto(12),
             1 => rng.alnum_upto(6),
@@ -259,7 +259,7 @@ pub fn run(tier: &str, seed: u64) -> Report {
     .into_iter()
     .map(|s| s.to_string())
     .collect();
-    for _ in 0..(if thorough { 100_000 } else { 10_000 }) {
+    for _ in 0..(if thorough { 1_000_000 } else { 10_000 }) {
         let n = rng.range(0, 30);
         let s = rng.utf8(n);
         nondates.push(s);
@@ -318,4 +318,4 @@ pub fn replay(case: &Value) -> Report {
     r
 }
 
-pub const RULE: &str = "CustomClaim::try_from: ALL strings of length 0..=4 over the 13 letters of the reserved keys plus 'E', space and NUL (69 905 keys) x the three constructor forms (&str, (&str,T), (String,T)); 23 decorated variants (case, whitespace, NUL, zero-width, homoglyphs, reversed, truncated, extended) of each of the seven keys x six forms/value types; 20 000 (thorough 200 000) random Unicode keys; oracle: fails with the reserved-key error iff the key is literally one of the seven, otherwise succeeds keeping key and value. Time constructors (ExpirationClaim, NotBeforeClaim, IssuedAtClaim x &str/String): 13 instants x UTC offsets -23:59..+23:59 (every 7th plus the extremes; thorough: all) x 0..9 fractional digits, 'Z' and '-00:00' forms must be accepted and kept verbatim (also read back through a built token); strings outside a deliberately broad recogniser of ISO 8601 date prefixes (optional sign + >= 4 digits) must be refused; lenient renderings and possibly-date strings are recorded without verdict. distinct_nontrivial = distinct (class, form/constructor, key or text shape) tuples";
+pub const RULE: &str = "CustomClaim::try_from: ALL strings of length 0..=4 over the 13 letters of the reserved keys plus 'E', space and NUL (69 905 keys) x the three constructor forms (&str, (&str,T), (String,T)); 23 decorated variants (case, whitespace, NUL, zero-width, homoglyphs, reversed, truncated, extended) of each of the seven keys x six forms/value types; 20 000 (thorough 2 000 000) random Unicode keys; oracle: fails with the reserved-key error iff the key is literally one of the seven, otherwise succeeds keeping key and value. Time constructors (ExpirationClaim, NotBeforeClaim, IssuedAtClaim x &str/String): 13 instants x UTC offsets -23:59..+23:59 (every 7th plus the extremes; thorough: all) x 0..9 fractional digits, 'Z' and '-00:00' forms must be accepted and kept verbatim (also read back through a built token); strings outside a deliberately broad recogniser of ISO 8601 date prefixes (optional sign + >= 4 digits) must be refused; lenient renderings and possibly-date strings are recorded without verdict. distinct_nontrivial = distinct (class, form/constructor, key or text shape) tuples";
